@@ -31,7 +31,7 @@ def bounds(tier):
 
 
 def plan(tier, seed):
-    shards = [("sup",) + s for s in c01.plan(tier, seed)]
+    shards = [("sup",) + s for s in c01.plan(tier, seed) if s[0] != "learn"]
     for a, b in E.chunks(E.n_graphs(4, 3), 250):
         shards.append(("semi", 3, 1, 3, True, a, b))
     for a, b in E.chunks(E.n_graphs(5, 2), 128):
@@ -123,7 +123,11 @@ def run(shard, seed):
     for prog in programs(shard, seed):
         try:
             with horizon(10.0):
-                v = run_case(prog, res)
+                if "previous" in prog:
+                    v = sup.replay_with_history(lambda p, r=None, model=None: run_case(p, res if p is not prog.get("previous") else None, model), prog)
+                    res.transitions += 1
+                else:
+                    v = run_case(prog, res)
         except Horizon as hz:
             v = viol(prog, str(hz), "no termination")
         res.evaluations += 1
